@@ -57,6 +57,7 @@ class Engine(OpsMixin):
         self.models = {}
         self.violations = []     # dicts
         self.sites_reached = {}  # site -> count
+        self.extra_interp = set()
         self.known = []          # known-finding entries (dicts) that apply to the current harness
         self.witness_cap = 10 ** 9
         Closure.engine = self
@@ -542,6 +543,8 @@ class Engine(OpsMixin):
             return False
         if not fn.__code__.co_filename.endswith(".py"):
             return False  # generated code (dataclass __init__ etc.)
+        if fn.__code__ in self.extra_interp:
+            return True
         return mod.split(".")[0] in INTERP_PREFIXES
 
     def call(self, fn, args, kwargs):
@@ -557,6 +560,14 @@ class Engine(OpsMixin):
             m = self.models.get(fn)
         except TypeError:
             m = None
+        if m is None and isinstance(fn, types.BuiltinMethodType) and type(getattr(fn, "__self__", None)).__name__ == "Struct" \
+                and fn.__name__ in ("pack", "unpack") and any(deep_sym(a) for a in args):
+            import struct as _struct
+            from .models import m_pack, m_unpack
+            fmt = fn.__self__.format
+            if fmt and fmt[0] in ">!" and all(c in "Bbx0123456789" for c in fmt[1:]):
+                fmt = "<" + fmt[1:]          # single bytes: byte order is irrelevant
+            return (m_pack if fn.__name__ == "pack" else m_unpack)(self, fmt, *args)
         if m is not None:
             return m(self, *args, **kwargs)
         if isinstance(fn, functools.partial):
@@ -605,7 +616,11 @@ class Engine(OpsMixin):
                 return recv.insert(i, args[1])
             if name == "sort":
                 if deep_sym(recv) or kwargs:
-                    raise Unsupported("list.sort with symbolic items")
+                    from .models import m_sorted
+                    if args or set(kwargs) - {"key", "reverse"}:
+                        raise Unsupported("list.sort arguments")
+                    recv[:] = m_sorted(self, list(recv), key=kwargs.get("key"), reverse=kwargs.get("reverse", False))
+                    return None
             if name in self.DATA_MOVERS[list]:
                 return fn(*args, **kwargs)
         if isinstance(recv, dict):
@@ -780,6 +795,13 @@ class Engine(OpsMixin):
     def call_function(self, fn, args, kwargs):
         node, base = self.get_ast(fn)
         env = {}
+        if fn.__closure__:
+            # free variables of a native closure (read access)
+            for nm, cell in zip(fn.__code__.co_freevars, fn.__closure__):
+                try:
+                    env[nm] = cell.cell_contents
+                except ValueError:
+                    pass
         self.bind_args(node.args, fn, args, kwargs, env)
         frame = Frame(env, fn.__globals__, fn, None)
         frame.line_base = base
